@@ -259,6 +259,84 @@ def r03_7(chk, tier):
                                  d.get('n'), d.get('l'), bad[1].line, A.text(bad[0])[:40], bad[0].get('l')), facts_, fn['q'])
     chk.require(n >= 10, 'R03.7: only %d read_span results found' % n)
 
+READERS = {'read': 1, 'sgetn': 1, 'read_buffer': 1}
+
+def r03_8(chk, tier):
+    from .. import guards as G
+    chk.rule('R03.8', 'short-read agreement: the result of every read primitive (source_.read(buf, N), streambuf sgetn(p, N), read_buffer) is '
+                      'compared with the very count that was requested (same constant or same expression), so a complete read is never '
+                      'taken for a short one and vice versa', floor=60)
+    n = 0
+    scopes = [('core', ('jsoncons/source.hpp',))] + [(u, (c.replace('basic_', '') + '.hpp',)) for u, c in PARSERS[1:]]
+    for unit, files in scopes:
+        facts = F.load([unit], tier)
+        if unit not in chk.units: chk.units.append(unit)
+        seen = set()
+        inst = set((f['file'], f['l']) for f in facts.functions if not f.get('dep'))
+        for fn in facts.functions:
+            if fn.get('body') is None or not fn['file'].endswith(files): continue
+            if fn.get('dep') and (fn['file'], fn['l']) in inst: continue
+            key = (fn['file'], fn['l'])
+            if key in seen: continue
+            seen.add(key)
+            def is_reader(c):
+                return c.get('k') == 'CXXMemberCallExpr' and A.callee_name(c) in READERS and len(c.get('args') or []) == 2 and \
+                       (A.ref_name(c.get('obj')) in ('source_', 'sbuf_', 'source') or A.callee_name(c) == 'sgetn')
+            rcalls = [c for c in A.walk_no_lambda(fn['body']) if is_reader(c)]
+            if not rcalls: continue
+            chk.analysed(fn)
+            # definitions of variables that hold a read result (declaration or later assignment; through casts/copies)
+            g = C.CFG(fn['body'])
+            defs = {}     # var id -> [(cfg node, call)]
+            for nd_ in g.rpo:
+                if nd_.kind != 'stmt' or not isinstance(nd_.ast, dict): continue
+                if nd_.ast.get('k') == 'DeclStmt':
+                    for d in nd_.ast.get('decls') or []:
+                        ini = A.strip(d.get('init'), casts=True) if d.get('init') is not None else None
+                        if ini is not None and is_reader(ini): defs.setdefault(d['id'], []).append((nd_, ini))
+                        elif ini is not None and ini.get('k') == 'DeclRefExpr' and ini.get('id') in defs:
+                            defs.setdefault(d['id'], []).append((nd_, defs[ini.get('id')][-1][1]))
+                else:
+                    s0 = A.strip(nd_.ast)
+                    if s0 is not None and s0.get('k') == 'BinaryOperator' and s0.get('op') == '=':
+                        l0 = A.strip(s0.get('lhs')); r0 = A.strip(s0.get('rhs'), casts=True)
+                        if l0 is not None and l0.get('k') == 'DeclRefExpr' and r0 is not None and is_reader(r0):
+                            defs.setdefault(l0.get('id'), []).append((nd_, r0))
+            def holder_call(vid, at_ast):
+                nd0 = g.node_of(at_ast)
+                cands = defs.get(vid) or []
+                if nd0 is None or not cands: return cands[-1][1] if cands else None
+                doms = [nd0] + g.dominators(nd0)
+                for dnode in doms:
+                    for dn, call_ in cands:
+                        if dn is dnode: return call_
+                return None
+            holders = defs
+            # comparisons
+            for x in A.walk_no_lambda(fn['body']):
+                if x.get('k') != 'BinaryOperator' or x.get('op') not in ('<', '!=', '==', '>=', '>', '<='): continue
+                for a, b, flip in ((x.get('lhs'), x.get('rhs'), False), (x.get('rhs'), x.get('lhs'), True)):
+                    sa = A.strip(a, casts=True)
+                    call = None
+                    if sa is not None and is_reader(sa): call = sa
+                    elif sa is not None and sa.get('k') == 'DeclRefExpr' and sa.get('id') in holders: call = holder_call(sa.get('id'), x)
+                    if call is None: continue
+                    cnt = call['args'][1]
+                    N = A.const(cnt); E = A.const(b)
+                    ct = A.text(A.strip(cnt, casts=True)); et = A.text(A.strip(b, casts=True))
+                    n += 1
+                    site = U.site(fn, 'read(%s) cmp@%d' % (ct[:16], x.get('l', 0) - fn['l']))
+                    ok = False
+                    if N is not None and E is not None:
+                        ok = (E == N) or (E == 0 and N == 1 and x.get('op') in ('==', '!=')) or (E == 0 and x.get('op') in ('==', '!=', '>'))
+                    else:
+                        ok = ct.replace(' ', '') == et.replace(' ', '') or E == 0
+                    if ok: chk.ok('R03.8', site, {'function': fn['q'], 'requested': ct, 'compared_with': et} if n % 20 == 1 else None)
+                    else:
+                        chk.fail('R03.8', site, fn['file'], x.get('l'), 'the result of `%s` (requested `%s`) is compared with `%s`' % (A.text(call)[:50], ct, et), None, fn['q'])
+                    break
+    chk.require(n >= 60, 'R03.8: only %d read-result comparisons found' % n)
+
 def run(chk, tier, only_rule=None):
     chk.explanation = EXPLANATION
     chk.not_decided = NOT_DECIDED
@@ -268,3 +346,4 @@ def run(chk, tier, only_rule=None):
     r03_5(chk, tier)
     r03_6(chk, tier)
     r03_7(chk, tier)
+    r03_8(chk, tier)
